@@ -11,7 +11,8 @@ mkdir -p "$scratch/repo"
 (cd /repo && git archive HEAD) | tar -x -C "$scratch/repo"
 # carry over uncommitted edits of the working tree, if any
 (cd /repo && git diff HEAD) | (cd "$scratch/repo" && git apply --allow-empty 2>/dev/null || true)
-(cd "$scratch/repo" && git apply "$patch") || { echo "PATCH-DOES-NOT-APPLY $patch"; exit 3; }
+# later fix: commits shift the context of older patches: fall back to patch(1) with fuzz before giving up
+(cd "$scratch/repo" && git apply "$patch" 2>/dev/null) || (cd "$scratch/repo" && patch -p1 -s -F3 --no-backup-if-mismatch < "$patch" >/dev/null 2>&1) || { echo "PATCH-DOES-NOT-APPLY $patch"; exit 3; }
 cd "$here"
 rc=0
 for id in "$@"; do
